@@ -29,3 +29,10 @@ pub fn big_endian(v: u64) -> [u8; 8] {
 pub fn unguarded(v: &[u64], i: usize) -> u64 {
     unsafe { *v.get_unchecked(i) }
 }
+
+/// C14.R2b: a buffered writer that is dropped without flush() (the error of the last write is lost).
+pub fn unflushed<W: Write>(w: W, v: u64) -> std::io::Result<()> {
+    let mut bw = std::io::BufWriter::new(w);
+    bw.write_all(&v.to_ne_bytes())?;
+    Ok(())
+}
